@@ -5,6 +5,7 @@ package connectconformance
 import (
 	"crypto/sha256"
 	"fmt"
+	"reflect"
 	"os"
 	"path/filepath"
 	"sort"
@@ -340,6 +341,26 @@ func vfExerciseExpected(rep *verifkit.Report, tc *conformancev1.TestCase, desc s
 				nh[hi].Value = canon
 				hl.set(a, nh)
 				c.mustPass("values-split", a)
+				// same number of physical values, other grouping / other spacing around the commas
+				g := len(h.Value)
+				for _, bigFirst := range []bool{true, false} {
+					var regrouped []string
+					big := len(canon) - (g - 1)
+					if bigFirst {
+						regrouped = append(regrouped, strings.Join(canon[:big], ", "))
+						regrouped = append(regrouped, canon[big:]...)
+					} else {
+						regrouped = append(regrouped, canon[:g-1]...)
+						regrouped = append(regrouped, strings.Join(canon[g-1:], ","))
+					}
+					if len(regrouped) == g && !reflect.DeepEqual(regrouped, h.Value) && reflect.DeepEqual(vfCanon(regrouped), canon) {
+						a = vfCloneRes(E)
+						nh = vfCloneHeaders(hs)
+						nh[hi].Value = regrouped
+						hl.set(a, nh)
+						c.mustPass("values-regrouped-same-count", a)
+					}
+				}
 			}
 		}
 		// contribute to the all-combined rewrite
@@ -380,6 +401,21 @@ func vfExerciseExpected(rep *verifkit.Report, tc *conformancev1.TestCase, desc s
 			a = vfCloneRes(E)
 			a.ResponseHeaders, a.ResponseTrailers = all, nil
 			c.mustPass("metadata-merged-into-headers", a)
+		}
+	}
+	if !mergeable && len(E.Payloads) == 0 && E.Error != nil && !vfHasDupNames(E.ResponseHeaders) && !vfHasDupNames(E.ResponseTrailers) {
+		// the merge leniency is for unary and client-stream errors only: on the other stream types an
+		// implementation that reports all metadata on one side has lost the other side
+		all := append(vfCloneHeaders(E.ResponseHeaders), vfCloneHeaders(E.ResponseTrailers)...)
+		if len(E.ResponseHeaders) > 0 {
+			a := vfCloneRes(E)
+			a.ResponseHeaders, a.ResponseTrailers = nil, all
+			c.mustFail("metadata-merged-into-trailers-on-"+strings.ToLower(strings.TrimPrefix(tc.Request.StreamType.String(), "STREAM_TYPE_")), a, strings.ToLower(E.ResponseHeaders[0].Name))
+		}
+		if len(E.ResponseTrailers) > 0 {
+			a := vfCloneRes(E)
+			a.ResponseHeaders, a.ResponseTrailers = all, nil
+			c.mustFail("metadata-merged-into-headers-on-"+strings.ToLower(strings.TrimPrefix(tc.Request.StreamType.String(), "STREAM_TYPE_")), a, strings.ToLower(E.ResponseTrailers[0].Name))
 		}
 	}
 	if E.Error != nil {
